@@ -20,6 +20,10 @@ type DWARFLines struct {
 	mux           sync.Mutex
 }
 
+// maxConsecutiveNullEntries bounds the run of null entries (each is one byte of well-formed DWARF info) which
+// DWARFLines.Line reads before it gives up.
+const maxConsecutiveNullEntries = 1 << 16
+
 type line struct {
 	addr uint64
 	pos  dwarf.LineReaderPos
@@ -64,12 +68,23 @@ func (d *DWARFLines) Line(instructionOffset uint64) (ret []string) {
 	var inlinedRoutines []*dwarf.Entry
 	var cu *dwarf.Entry
 	var inlinedDone bool
+	var nullEntries int
 entry:
 	for {
 		ent, err := r.Next()
 		if err != nil || ent == nil {
 			break
 		}
+
+		// On ill-formed DWARF info (e.g. an unterminated LEB128 at the end of .debug_info) the reader returns
+		// null entries forever without advancing, so guard against an endless run of them.
+		if ent.Tag == 0 {
+			if nullEntries++; nullEntries > maxConsecutiveNullEntries {
+				break
+			}
+			continue
+		}
+		nullEntries = 0
 
 		// If we already found the compilation unit and relevant inlined routines, we can stop searching entries.
 		if cu != nil && inlinedDone {
@@ -179,6 +194,10 @@ entry:
 	// In the inlined case, the line info is the innermost inlined function call.
 	inlined := len(inlinedRoutines) != 0
 	prefix := fmt.Sprintf("%#x: ", instructionOffset)
+	if le.File == nil {
+		// The file index of the line entry is not in the file table: guard against ill-formed DWARF info.
+		return
+	}
 	ret = append(ret, formatLine(prefix, le.File.Name, int64(le.Line), int64(le.Column), inlined))
 
 	if inlined {
@@ -191,7 +210,7 @@ entry:
 			fileIndex, ok := inlined.Val(dwarf.AttrCallFile).(int64)
 			if !ok {
 				return
-			} else if fileIndex >= int64(len(files)) {
+			} else if fileIndex < 0 || fileIndex >= int64(len(files)) || files[fileIndex] == nil {
 				// This in theory shouldn't happen according to the spec, but guard against ill-formed DWARF info.
 				return
 			}
